@@ -99,7 +99,7 @@ pub fn generate(seed: u64, tier: Tier) -> History {
         Tier::Thorough => (8, 40, 10),
     };
     // now and then a library large enough for the result limits (100 search hits) and rank ties to matter
-    let big_library = swarm.chance(1, 150);
+    let big_library = swarm.chance(1, if tier == Tier::Thorough { 150 } else { 400 });
     // one run in 25 starts on an empty library (every note arrives through didChange)
     let empty_start = !big_library && swarm.chance(1, 25);
     let n_notes = if big_library { swarm.range(40, 130) } else if empty_start { 0 } else { swarm.range(1, max_notes) };
@@ -108,8 +108,8 @@ pub fn generate(seed: u64, tier: Tier) -> History {
     let refs_ext = format!("{}{}", if swarm.chance(1, 4) { ".md" } else { "" }, *swarm.pick(&["", "", "", "|helix", "|models", "|helix+models"]));
     let marathon = swarm.chance(1, if tier == Tier::Thorough { 40 } else { 300 });
     // a long session on a big note: tens of thousands of removed nodes and line slots
-    let heavy = !big_library && !empty_start && swarm.chance(1, if tier == Tier::Thorough { 300 } else { 1500 });
-    let n_ops = if heavy { swarm.range(350, 420) } else if marathon && !big_library { swarm.range(120, 320) } else if big_library { swarm.range(1, 5) } else { swarm.range(1, max_ops) };
+    let heavy = !big_library && !empty_start && swarm.chance(1, if tier == Tier::Thorough { 300 } else { 3000 });
+    let n_ops = if heavy { swarm.range(350, 380) } else if marathon && !big_library { swarm.range(120, 320) } else if big_library { swarm.range(1, 5) } else { swarm.range(1, max_ops) };
     let poison_pct = *swarm.pick(&[0u32, 0, 0, 4, 8]);
     let restart_pct = if heavy { 0 } else { *swarm.pick(&[0u32, 0, 5, 10, 25]) };
     let save_pct = *swarm.pick(&[0u32, 10, 30]);
@@ -164,7 +164,7 @@ pub fn generate(seed: u64, tier: Tier) -> History {
             let mut blocks = vec![gen::Block::Heading { level: 1, inl: vec![gen::Inline::Word("big".into())], setext: false }];
             let mut g = Gen { rng: &mut work, cfg: &cfg };
             blocks.push(g.table());
-            for i in 0..g.rng.range(230, 330) {
+            for i in 0..g.rng.range(230, 290) {
                 blocks.push(if i % 17 == 5 { g.block_ref() } else { gen::Block::Para(vec![g.inlines(20)]) });
             }
             let d = Doc { front: None, blocks, trailing_newline: true, bom: false };
@@ -461,7 +461,11 @@ fn check_patches(graph: &Graph, key: &str, pick: &mut Rng, out: &mut Outcome) ->
 
 pub fn run(h: &History, with_patches: bool) -> Outcome {
     let mut out = Outcome::default();
-    let obs_cfg = ObsCfg { queries: h.queries.clone(), action_lines: 3, resolves: 1, positions: 1 };
+    // a heavy session (hundreds of edits of one big note) is about thresholds in the arena, not about breadth of
+    // observation: it is observed more lightly so that one such run does not dominate a quick batch
+    let heavy_session = h.ops.len() > 330;
+    let with_patches = with_patches && !heavy_session;
+    let obs_cfg = if heavy_session { ObsCfg { queries: vec![String::new()], action_lines: 1, resolves: 0, positions: 0 } } else { ObsCfg { queries: h.queries.clone(), action_lines: 3, resolves: 1, positions: 1 } };
     let mut model = h.library.clone();
     let mut pick = Rng::new(h.pick_seed);
     let mut digest: u64 = 0xABCDEF;
